@@ -97,6 +97,11 @@ func loadKnownFindings() []knownFinding {
 }
 
 func (k *knownFinding) matches(v *Violation) bool {
+	if len(k.Params) > 0 {
+		// the finding's class is assumed away during exploration (its KF_* parameters are set): whatever the
+		// explorer still finds is by construction a different violation and is never suppressed
+		return false
+	}
 	if k.Harness != "" && k.Harness != v.Harness {
 		return false
 	}
